@@ -647,3 +647,23 @@ func VerifC12_UndirectWeightedDoc() {
 	}
 	verifReach("end")
 }
+
+// VerifC12_MapIterExhausted (tag safe for the map-backed kinds): the same
+// sentence of graph.Iterator.Next ("returns whether the next call to the item
+// method will return a non-nil item") for the other node iterators: once Next
+// has returned false the item method returns nil. kind 0..4: LazyOrderedNodes*,
+// 5..9: iterator.Nodes / NodesByEdge (safe build).
+func VerifC12_MapIterExhausted() {
+	kind := verifChoose("kind", verifParam("exlo", 0), verifParam("exhi", 9))
+	mask := verifChoose("sel", 0, 7)
+	sel := make([]bool, 3)
+	for i := range sel {
+		sel[i] = mask>>uint(i)&1 == 1
+	}
+	it := c12MapIter(kind < 5, kind%5, 3, sel)
+	for it.Next() {
+	}
+	verifAssert(!it.Next(), "node iterator: Next stays false when exhausted")
+	verifAssert(it.Node() == nil, "node iterator: Next returned false, so Node() returns nil (graph.Iterator.Next)")
+	verifReach("end")
+}
